@@ -207,6 +207,7 @@ def main(argv=None):
     a = sub.add_parser("benign")
     a.add_argument("ids", nargs="*")
     a.add_argument("--repo")
+    a.add_argument("--dir", default="benign", help="corpus directory under /verif (benign, or benign_limits: correct additions that are known to be reported)")
     a.set_defaults(fn=cmd_benign)
     args = ap.parse_args(argv)
     try:
